@@ -570,4 +570,50 @@ theorem wsRule_only_whitespace (p : PCfg) (pres : Bool) (s : PStr) :
   wsRule_cases p pres s
 
 
+/-! ## 11. `output_ready` called directly; `Doctype.for_name_and_ids` -/
+
+/-- `string.output_ready(None)`: PREFIX + the string as it stands + SUFFIX — no substitution at all, whatever the
+    class and the parent. -/
+theorem output_ready_none (ci : SCls → ClsInfo) (e : FmtEnv) (r : Bool) (ch : List (Option Bool)) (pn : Option PStr)
+    (c : SCls) (s : PStr) : strOutputReady ci e r ch none pn c s = some ((ci c).pre ++ s ++ (ci c).suf) := rfl
+
+/-- `string.output_ready(arg)` with an argument that resolves (by the string's own flavour, decided up its parent
+    chain) to the formatter `f`: exactly what `decode()` emits for that string under `f`. -/
+theorem output_ready_resolved (ci : SCls → ClsInfo) (e : FmtEnv) (r : Bool) (ch : List (Option Bool)) (a : FmtArg) (f : Fmt)
+    (h : formatterForName e (isXmlSpec r ch) a = .ok f) (pn : Option PStr) (c : SCls) (s : PStr) :
+    strOutputReady ci e r ch (some a) pn c s = some (outputReady ci f pn c s) := by
+  simp only [strOutputReady, isXml_eq_spec, h, outputReady]
+
+/-- an unknown registry key raises `KeyError` for every class — the preformatted ones included, although they ignore the
+    formatter's result -/
+theorem output_ready_keyerror (ci : SCls → ClsInfo) (e : FmtEnv) (r : Bool) (ch : List (Option Bool)) (k : Option PStr)
+    (h : lookupReg (e.registry (isXmlImpl r ch)) k = none) (pn : Option PStr) (c : SCls) (s : PStr) :
+    strOutputReady ci e r ch (some (.name k)) pn c s = none := by
+  simp [strOutputReady, formatterForName, h]
+
+example : strOutputReady liveClsInfo liveEnv false [none, some false] (some (.name (some (ofS "nosuch")))) none .comment (ofS "c") = none ∧
+    strOutputReady liveClsInfo liveEnv false [none, some false] (some (.name (some (ofS "minimal")))) (some (ofS "p")) .navigable (ofS "a<") =
+      some (ofS "a&lt;") ∧
+    strOutputReady liveClsInfo liveEnv false [none] none (some (ofS "p")) .navigable (ofS "a<") = some (ofS "a<") := by decide
+
+/-- A doctype made by `Doctype.for_name_and_ids` renders as `<!DOCTYPE ` + its string + `>\n` under every formatter
+    (class table), and if neither the name nor the identifiers contain `>` it is representable: it comes back as the
+    same doctype (`reparse_roundtrip`, `same_specials`). -/
+theorem doctype_for_ids (f : Fmt) (pn : Option PStr) (name pub sys : Option PStr)
+    (hn : 62 ∉ name.getD []) (hp : 62 ∉ pub.getD []) (hs : 62 ∉ sys.getD []) :
+    outputReady liveClsInfo f pn .doctype (doctypeString name pub sys) =
+        ofS "<!DOCTYPE " ++ doctypeString name pub sys ++ ofS ">\n" ∧
+      okStr .doctype (doctypeString name pub sys) = true := by
+  refine ⟨rfl, ?_⟩
+  have h62 : 62 ∉ doctypeString name pub sys := by
+    unfold doctypeString
+    cases pub <;> cases sys <;> simp_all
+  simpa [okStr] using h62
+
+example : doctypeString (some (ofS "html")) (some (ofS "-//W3C//DTD HTML 4.01//EN")) (some (ofS "x.dtd")) =
+    ofS "html PUBLIC \"-//W3C//DTD HTML 4.01//EN\" \"x.dtd\"" ∧
+    doctypeString none none (some (ofS "x.dtd")) = ofS " SYSTEM \"x.dtd\"" ∧ doctypeString (some (ofS "html")) none none = ofS "html" := by
+  decide
+
+
 end BS.Props.C05
